@@ -6,6 +6,7 @@
   errors that truthfully describe a violated precondition of that call in that state.
 -/
 import RSVerif.Proofs.Errors
+import RSVerif.Proofs.FlatSpec
 
 namespace RS
 
@@ -85,5 +86,21 @@ theorem oneshot_truthful (stale : Stale) (lw : Array Nat) (k r : Nat) (l : List 
 example : ∃ d : Decoder, Decoder.new (fun L _ => Vector.replicate L 0#16) .high .naive 3 2 64 none = .ok d ∧
     (d.addOriginal 18446744073709551615 #[]).1 = .err (.invalidOriginalIndex 3 18446744073709551615) :=
   ⟨_, rfl, rfl⟩
+
+/-- "never panics", at the level of slice bounds: the exact conditions under which each accessor of
+    the flat working memory (`Shards` / `ShardsRefMut`, src/engine/shards.rs, transliterated with Rust's
+    slice-bound semantics) does not panic.  Every call site in src/engine and src/rate stays inside them
+    (positions `< work_count`, `dist ≥ 1`, disjoint ranges; see `index_safe_high/low` of C08). -/
+theorem flat_memory_panic_free_iff (f : Flat) (hwf : f.WF) (hn : 0 < f.len64) (a b c : Nat) :
+    (f.shard a ≠ none ↔ a < f.count) ∧
+    (f.dist2 a b ≠ none ↔ (0 < b ∧ a + b < f.count)) ∧
+    (f.dist4 a b ≠ none ↔ (0 < b ∧ a + 3 * b < f.count)) ∧
+    (f.zero a b ≠ none ↔ (a ≤ b ∧ b ≤ f.count)) ∧
+    (f.copyWithin a b c ≠ none ↔ (a + c ≤ f.count ∧ b + c ≤ f.count)) ∧
+    (f.flat2 a b c ≠ none ↔ ((a + c ≤ b ∧ b + c ≤ f.count) ∨ (b + c ≤ a ∧ a + c ≤ f.count))) ∧
+    (f.splitAt a ≠ none ↔ a ≤ f.count) :=
+  ⟨Flat.shard_some_iff f hwf hn a, Flat.dist2_some_iff f hwf hn a b, Flat.dist4_some_iff f hwf hn a b,
+   Flat.zero_some_iff f hwf hn a b, Flat.copyWithin_some_iff f hwf hn a b c,
+   Flat.flat2_some_iff f hwf hn a b c, Flat.splitAt_some_iff f hwf hn a⟩
 
 end RS
